@@ -313,6 +313,24 @@ fn parse_txt_payload(payload: &str) -> Result<Vec<ScionIpAddr>, TxtParseError> {
     Ok(addresses)
 }
 
+/// Verification hook (feature `verif-hooks`): forwards to the private TXT payload parser
+/// (the part of a record after `scion=v1;`). The error is rendered as text.
+#[cfg(feature = "verif-hooks")]
+pub fn verif_parse_txt_payload(payload: &str) -> Result<Vec<ScionIpAddr>, String> {
+    parse_txt_payload(payload).map_err(|e| e.to_string())
+}
+
+/// Verification hook (feature `verif-hooks`): forwards whole TXT records (including the
+/// `scion=v1;` prefix handling) to the private record resolver, as `resolve` does after the
+/// DNS lookup.
+#[cfg(feature = "verif-hooks")]
+pub fn verif_resolve_txt_records(
+    domain: &str,
+    records: Vec<String>,
+) -> Result<Vec<ScionIpAddr>, ResolveError> {
+    resolve_txt_records_with_invalid(domain, records, Vec::new())
+}
+
 fn txt_record_to_string(txt: &TXT) -> Result<String, InvalidEntry> {
     let bytes: Vec<u8> = txt
         .txt_data()
